@@ -159,3 +159,6 @@ UNITS.append(U(name='htp_connp_RES_FINALIZE_probe_conserves', props=['C03', 'C06
                    'delivered ++ buffered ++ unconsumed equals what was pending on entry, wherever the chunk boundary falls inside that line ("the bytes following the body start the next message")',
                assumes=['htp_treat_response_line_as_body (heuristic: does the line look like a status line) replaced by a stub that answers arbitrarily; body sink and response completion replaced by logging stubs',
                         'stream not closed; a probe that continues from an earlier chunk starts at offset 0 of the current one (that is how the driver re-enters a state after DATA_BUFFER)']))
+
+# (a two-run relational unit `S(whole line) == S(first k bytes) ; real req_buffer ; S(rest)` for htp_connp_REQ_LINE was written and does not finish:
+#  symbolic cut position 240 s then solver errors under memory pressure, enumerated cut positions > 600 s.  Not delivered; see DESIGN section 8.2.)
